@@ -48,7 +48,11 @@ MESHES = [
     ("ico", {}),
     ("two", {}),
 ]
-FILES = [{"kind": "file", "path": "ugrid/quad-hexagon/grid.nc"}, {"kind": "file", "path": "mpas/QU/mesh.QU.1920km.151026.nc"}]
+FILES = [
+    {"kind": "file", "path": "ugrid/quad-hexagon/grid.nc"},
+    {"kind": "file", "path": "mpas/QU/mesh.QU.1920km.151026.nc"},
+    {"kind": "file", "path": "exodus/outCSne8/outCSne8.g"},
+]
 PES = ["exclude", "split", "ignore"]
 PROJS = [None, None, None, None, "robinson", "robinson", "mollweide", "pc180", "rob100", "ortho", "ortho2"]
 DERIVE = ["node_x", "face_lon", "face_areas", "n_nodes_per_face", "edge_node_connectivity", "bounds", "face_x", "edge_lon"]
@@ -134,9 +138,16 @@ class Frame:
         self.sure, self.unsure = [], []
         for f, nodes in enumerate(mesh.faces):
             lo = lon[nodes]
-            m = float(np.max(np.abs(np.roll(lo, -1) - lo)))
+            d64 = np.abs(np.roll(lo, -1) - lo)
+            lo32 = lo.astype(np.float32)
+            d32 = np.abs(np.roll(lo32, -1) - lo32).astype(np.float64)  # what float32 shells give
+            m = float(np.max(d64))
             on_seam = self.lon0 != 0.0 and bool(np.any(np.abs(np.abs(lo) - 180.0) < 1e-3))
-            if abs(m - 180.0) <= 1e-3 or on_seam:
+            near = (np.abs(d64 - 180.0) <= 1e-3) | (np.abs(d32 - 180.0) <= 1e-3)
+            # an edge spanning EXACTLY 180 degrees (pole node stored at longitude 0 next to a node
+            # at +-180, as in cube-sphere files) is decidable: "at least 180" includes it
+            exact = (d64 == 180.0) & (d32 == 180.0)
+            if on_seam or bool(np.any(near & ~exact)):
                 self.unsure.append(f)
             elif m >= 180.0:
                 self.sure.append(f)
@@ -334,26 +345,42 @@ class Convert(Profile):
         return op
 
     def generate(self, rng, cfg):
-        src = gen_source(rng)
+        sources = {"g0": gen_source(rng)}
+        if rng.random() < 0.35:
+            sources["g1"] = gen_source(rng)  # another grid alive in the same process
+        hs = sorted(sources)
         n = rng.randint(2, cfg["max_steps"])
         ops = []
         nx = 0
         for i in range(n):
             r = rng.random()
+            h = "g0" if rng.random() < 0.7 else rng.choice(hs)
             if r < 0.72 or i == n - 1:
-                op = self.gen_conv(rng, [o for o in ops if "pe" in o])
+                prev = [o for o in ops if "pe" in o]
+                if len(hs) > 1 and prev and rng.random() < 0.35:
+                    # the very same conversion, but of the OTHER grid alive in this process
+                    o = rng.choice(prev)
+                    op = {k: v for k, v in o.items() if k not in ("as", "g")}
+                    h = [x for x in hs if x != o.get("g", "g0")][0]
+                else:
+                    op = self.gen_conv(rng, prev)
                 op["as"] = f"x{nx}"
+                op["g"] = h
                 nx += 1
                 ops.append(op)
             elif r < 0.8:
-                ops.append({"op": "am"})
+                ops.append({"op": "am", "g": h})
             elif r < 0.88:
-                ops.append({"op": "derive", "name": rng.choice(DERIVE)})
+                ops.append({"op": "derive", "name": rng.choice(DERIVE), "g": h})
             elif nx:
                 ops.append({"op": "edit", "x": f"x{rng.randrange(nx)}", "k": rng.randrange(1000)})
             else:
-                ops.append({"op": "am"})
-        return {"sources": {"g0": src}, "ops": ops}
+                ops.append({"op": "am", "g": h})
+        return {"sources": sources, "ops": ops}
+
+    def simplify_sources(self, sources):
+        if "g1" in sources:
+            yield {"g0": sources["g0"]}
 
     def simplify(self, op):
         if op["op"] in ("gdf", "polyc", "linec", "uxda_gdf", "uxda_polyc"):
@@ -372,15 +399,20 @@ class Convert(Profile):
 
     # ------------------------------------------------------------------
     def begin(self, W):
-        W.fm = None
+        W.fm = {}
         W.returned = {}  # handle -> {"obj", "digest", "edited", "op"}
         W.last_conv = {}
         W.perturbed = False
 
-    def fm(self, W):
-        if W.fm is None:
-            W.fm = FaceModel(W.model("g0"))
-        return W.fm
+    def fm(self, W, h="g0"):
+        if h not in W.fm:
+            W.fm[h] = FaceModel(W.model(h))
+        return W.fm[h]
+
+    @staticmethod
+    def handle(W, op):
+        h = op.get("g", "g0")
+        return h if h in W.trace["sources"] else "g0"
 
     def data(self, g, var):
         import uxarray as ux
@@ -436,7 +468,8 @@ class Convert(Profile):
         from sim import canon as C
 
         n = op["op"]
-        g = W.grid("g0")
+        h = self.handle(W, op)
+        g = W.grid(h)
         if n == "derive":
             try:
                 getattr(g, op["name"])
@@ -455,7 +488,7 @@ class Convert(Profile):
                 am = np.asarray(g.antimeridian_face_indices).astype(int).ravel()
             except Exception as e:
                 return ("exc", type(e).__name__), [V(f"C15/am/exception({type(e).__name__})", i, str(e)[:200])]
-            fm = self.fm(W).frame(None)
+            fm = self.fm(W, h).frame(None)
             got = set(am.tolist())
             vs = []
             if not (set(fm.sure) <= got <= set(fm.sure) | set(fm.unsure)) or len(got) != len(am):
@@ -467,11 +500,15 @@ class Convert(Profile):
         from sim import canon as C
         from sim import world as Wd
 
-        g = W.grid("g0")
+        h = self.handle(W, op)
+        g = W.grid(h)
         n = op["op"]
         sig = f"C15/{n}[pe={op['pe']},proj={'P' if op.get('proj') else None}]"
         W.cov["judged"] += 1
-        key = (n.replace("uxda_", ""),)
+        key = (h, n.replace("uxda_", ""))
+        if W.last_conv and all(k[0] != h for k in W.last_conv):
+            W.fire("other_grid")
+            W.perturbed = True
         args = (op["pe"], op.get("proj"), op.get("engine"), op.get("var"))
         if key in W.last_conv and W.last_conv[key] != args:
             W.fire("arg_switch")
@@ -489,7 +526,7 @@ class Convert(Profile):
             out = ("exc", type(e).__name__)
         W.last_conv[key] = args
         # (b) fresh twin
-        twin = Wd.open_source(W.trace["sources"]["g0"], W.scratch).grid
+        twin = Wd.open_source(W.trace["sources"][h], W.scratch).grid
         try:
             ref = self.canon(self.call(twin, op))
         except Exception as e:
@@ -516,7 +553,7 @@ class Convert(Profile):
             return out, [V(f"{sig}/history-dependent", i, f"{n} {self.args_str(op)} after {i} earlier steps differs from the same call on a fresh grid: {why}")]
         # (a) model
         if True:
-            fm = self.fm(W).frame(op.get("proj"))
+            fm = self.fm(W, h).frame(op.get("proj"))
             if not fm.unsure:
                 why = self.model_check(fm, op, obj)
                 if why:
